@@ -522,7 +522,7 @@ def install_string_hooks(it):
             # a pattern whose every match is exactly one character (no look-around) rewrites the text character by
             # character, like str.translate: the image of each character is computed
             try:
-                one = rxmod.width(rx.pattern, rx.flags) == (1, 1) and '(?' not in rx.pattern.replace('(?:', '')
+                one = rxmod.width(rx.pattern, rx.flags) == (1, 1) and '(?' not in re.sub(r'\(\?P<\w+>', '(', rx.pattern.replace('(?:', ''))
             except Exception:
                 one = False
             if one and not is_abstract(repl):
